@@ -28,6 +28,8 @@ Definition monitor (c : case) : nat :=
                                   match acc_of a (rev (c_accepts c)) with [] => 0 | n :: _ => n end) authors) then 2%nat
   (* neither an accepted nor an ignored message costs any of its forwarders anything (no validation here rejects) *)
   else if existsb (fun i => match rget i (c_results c) with Some _ => true | None => false end) (c_penalised c) then 3%nat
+  (* an accepted number exceeds the stored one, which is at least 0: zero (an absent or undecodable field) is never accepted *)
+  else if existsb (fun e => snd e =? 0) (c_accepts c) then 4%nat
   else 0%nat.
 
 Definition check_case (c : case) : verdict :=
